@@ -103,6 +103,8 @@ CHECKS = {
              essential=_CODEC_ESS_KINDS + ["label=255", "payload>16KiB"]),
         dict(prop="C02.dec", harness="codec_pbt", quick=dict(count=24000, workers=8), thorough=dict(count=2400000, workers=16),
              essential=_CODEC_ESS_KINDS + ["label=255", "zlib-stored", "foreign:flag", "foreign:zero-tail"]),
+        dict(prop="C02.e2e", harness="api_pbt", quick=dict(count=2400, workers=6), thorough=dict(count=100000, workers=16),
+             essential=_ALL_SCHEMAS + ["write-accepted", "mode=update", "cue-slot7", "label=255", "waveform:recommended-size", "key=c_major"]),
     ]),
     "C03": dict(level="exploration", parts=[
         dict(prop="C03", harness="codec_pbt", quick=dict(count=40000, workers=8), thorough=dict(count=3300000, workers=16),
@@ -116,6 +118,10 @@ CHECKS = {
                         "count!=8", "flag>1", "v2.track_data:tail", "v2.overview_waveform:tail", "v2.beat_data:tail", "v2.loops:tail",
                         "v2.quick_cues:tail"]),
         dict(prop="C04.fuzz", kind="fuzz", targets=[0, 1, 2, 3, 4], quick_runs=150000, thorough_runs=6000000),
+        dict(prop="REG", harness="api_pbt", quick=dict(count=0, workers=1), thorough=dict(count=0, workers=1)),  # regression scenarios
+        dict(prop="C04.api", harness="api_pbt", quick=dict(count=3000, workers=6), thorough=dict(count=150000, workers=16),
+             essential=_V2_SCHEMAS + ["setter=" + x for x in ["main_cue", "hot_cue_at", "hot_cues", "loop_at", "loops", "key", "sample_count", "sample_rate",
+                                                              "average_loudness", "beatgrid", "waveform", "title", "rating", "bpm", "relative_path"]]),
     ]),
     "C05": dict(level="exploration", parts=[
         dict(prop="C05", harness="codec_pbt", quick=dict(count=60000, workers=8), thorough=dict(count=6000000, workers=16),
@@ -260,7 +266,9 @@ RULES = {
            "main-cue boolean, 0..64 trailing bytes) is encoded by refcodec at zlib level -1..9 and given to from_blob; if accepted, the "
            "inflated payload of to_blob(from_blob(b)) must equal the original payload byte for byte (main-cue boolean normalised to 1, located "
            "through the layout table). fuzz part: libFuzzer on the five 2.x decoders with the same oracle inside the target (raw bytes or "
-           "bytes framed by the target). Non-trivial = blob has a tail, a count != 8, a flag > 1, or is beat data; distinct = distinct payloads "
+           "bytes framed by the target). api part: a 2.x track row gets five foreign blobs (refcodec-built: counts != 8, flag bytes, tails) written "
+           "through the library's own connection, then ONE single-field setter is called; every layout token of the four other blobs, and every "
+           "token of the setter's own blob outside the field being set (incl. the tail), must be unchanged. Non-trivial = blob has a tail, a count != 8, a flag > 1, or is beat data; distinct = distinct payloads "
            "(pbt) + coverage-increasing corpus units beyond the seeds (fuzz).",
     "C05": "pbt part: a valid payload of one of the 11 kinds (from the value generators + refcodec) gets 1-2 structured mutations "
            "(truncation anywhere / near the end, a count field overwritten with 0, -1, INT64_MIN, fit+-1, 2^31, 2^59, 2^61, 2^63-1..., byte "
@@ -409,7 +417,7 @@ MANIFEST_TEXT = {
                 technique="property-based metamorphic testing (decode/re-encode byte preservation) + coverage-guided fuzzing with the oracle in the target",
                 text="Foreign 2.x blobs built by refcodec (arbitrary counts, flags, tails, zlib levels) and libFuzzer mutations of them: "
                      "whenever from_blob accepts, to_blob must reproduce the payload byte for byte.",
-                note="Setter-level byte preservation on stored tracks is covered by the api-level part once that harness lands."),
+                note="Payload = one-shot inflate of the single well-formed frame; the api part reads blobs through the library's own connection."),
     "C05": dict(engine="codec_pbt + codec_fuzz", design_ref="DESIGN.md 6/C05",
                 technique="coverage-guided fuzzing (libFuzzer, ASan+UBSan) + structured near-miss generation with sanitizers and a watchdog",
                 text="Arbitrary and structured-corrupt byte strings into all 11 decoders and zlib_uncompress: return or std::exception, no "
